@@ -400,6 +400,70 @@ def inline_decorators(trees: Dict[str, ast.Module]) -> int:
     return n
 
 
+def materialise_properties(trees: Dict[str, ast.Module]) -> int:
+    """``name = property(lambda self: E)`` in a class body -- written directly or returned by a new factory function called with
+    constant arguments (``is_pending = _is_type('Pending')``) -- reads as ``@property def name(self): return E``."""
+    from .oracles.inventory import FUNCTIONS
+    n = 0
+
+    def prop_lambda(call):
+        if isinstance(call, ast.Call) and ast.unparse(call.func) == 'property' and call.args and isinstance(call.args[0], ast.Lambda) \
+                and len(call.args) == 1 and all(k.arg in ('doc', 'fget') for k in call.keywords if k.arg != 'doc' or True) \
+                and all(k.arg == 'doc' for k in call.keywords):
+            lam = call.args[0]
+            a = lam.args
+            if len(a.args) == 1 and not (a.vararg or a.kwarg or a.kwonlyargs or a.defaults or a.posonlyargs):
+                return lam
+        return None
+
+    for mod, tree in trees.items():
+        factories = {}
+        for st in tree.body:
+            if isinstance(st, ast.FunctionDef) and '%s:%s' % (mod, st.name) not in FUNCTIONS and not st.decorator_list \
+                    and not (st.args.vararg or st.args.kwarg or st.args.kwonlyargs or st.args.defaults):
+                body = [x for x in st.body if not (isinstance(x, ast.Expr) and isinstance(x.value, ast.Constant))
+                        and not isinstance(x, ast.Assert)]
+                if len(body) == 1 and isinstance(body[0], ast.Return) and prop_lambda(body[0].value) is not None:
+                    factories[st.name] = (st, prop_lambda(body[0].value))
+        for cdef in [x for x in ast.walk(tree) if isinstance(x, ast.ClassDef)]:
+            new_body = []
+            for st in cdef.body:
+                made = None
+                if isinstance(st, ast.Assign) and len(st.targets) == 1 and isinstance(st.targets[0], ast.Name) and isinstance(st.value, ast.Call):
+                    lam = prop_lambda(st.value)
+                    env = {}
+                    if lam is None and isinstance(st.value.func, ast.Name) and st.value.func.id in factories and not st.value.keywords \
+                            and all(isinstance(a, ast.Constant) for a in st.value.args):
+                        fdef, lam0 = factories[st.value.func.id]
+                        ps = [a.arg for a in fdef.args.args]
+                        if len(ps) == len(st.value.args):
+                            env = dict(zip(ps, st.value.args))
+                            lam = lam0
+                    if lam is not None:
+                        slf = lam.args.args[0].arg
+                        body_e = copy.deepcopy(lam.body)
+
+                        class S(ast.NodeTransformer):
+                            def visit_Name(self_, y):
+                                if isinstance(y.ctx, ast.Load) and y.id in env and y.id != slf:
+                                    return copy.deepcopy(env[y.id])
+                                return y
+                        body_e = S().visit(body_e)
+                        made = ast.FunctionDef(name=st.targets[0].id,
+                                               args=ast.arguments(posonlyargs=[], args=[ast.arg(arg=slf)], vararg=None, kwonlyargs=[],
+                                                                  kw_defaults=[], kwarg=None, defaults=[]),
+                                               body=[ast.Return(value=body_e)],
+                                               decorator_list=[ast.Name(id='property', ctx=ast.Load())], returns=None, type_comment=None)
+                        if hasattr(ast, 'TypeVar'):
+                            made.type_params = []
+                        ast.copy_location(made, st)
+                        ast.fix_missing_locations(made)
+                        n += 1
+                new_body.append(made if made is not None else st)
+            cdef.body = new_body
+    return n
+
+
 def canonical_imports(trees: Dict[str, ast.Module], pkg: str = 'pynetdicom2') -> int:
     """One spelling for imports of the package's own modules: ``import pkg.mod as x`` / ``from pkg import mod as x`` /
     ``from . import mod as x`` all become ``from . import mod`` and every reference ``x.`` becomes ``mod.``;
